@@ -21,7 +21,7 @@ import numpy as np
 
 from . import core
 
-MECH = dict(MSkip="none", MLoadMissing="none", MLayerCond=True, MRestoreDual=True, MPolyAsHeld=True, MDynAlways=True)
+MECH = dict(MSkip="none", MLoadMissing="none", MLayerCond=True, MRestoreDual=True, MPolyAsHeld=True, MDynAlways=True, MMemoByPath=False)
 PINNED = dict(MECH, MLoadMissing="default")
 INVARIANTS = ["TypeOK", "LoadSaveIdentity", "FileHoldsContent", "MeshRestoredEqualsRecomputed"]
 
@@ -197,22 +197,14 @@ def guarded(fn):
 _BASE = {}
 
 
-def base_solution(tdgl, tmp, nsteps=5, k=2, kind="barhole", probes=2, screening=False, nofile=False):
+def base_solution(tdgl, tmp, nsteps=5, k=2, kind="barhole", probes=2, screening=False, nofile=False, smooth=0):
     """A tiny real run (fixed step): nsteps steps, a frame every k steps; cached per process.
     nofile: run with output_file=None (the Solution returned by solve() is then not backed by a file)."""
-    from . import devices
-
-    key = (nsteps, k, kind, probes, screening, nofile, tmp)
+    key = (nsteps, k, kind, probes, screening, nofile, smooth, tmp)
     if key in _BASE and (nofile or os.path.exists(_BASE[key].path)):
         return _BASE[key]
-    dev = devices.make(tdgl, kind, mel=1.3, probes=probes)
     d = tempfile.mkdtemp(prefix="pbase", dir=tmp)
-    dt = 2.0 ** -6
-    opts = tdgl.SolverOptions(solve_time=max(nsteps * dt - dt / 2, 0.0), dt_init=dt, dt_max=dt, adaptive=False, save_every=k,
-                              output_file=None if nofile else os.path.join(d, "base.h5"), progress_interval=10 ** 9,
-                              include_screening=screening, screening_tolerance=1e-2)
-    cur = {"source": 1.0, "drain": -1.0} if kind in ("bar", "barhole") else None
-    sol = tdgl.solve(dev, opts, applied_vector_potential=0.2, terminal_currents=cur)
+    sol = tiny_run(tdgl, None if nofile else os.path.join(d, "base.h5"), nsteps, k, kind, probes, screening, smooth)
     _BASE[key] = sol
     return sol
 
@@ -305,13 +297,16 @@ def options_many(tdgl, args, tmp):
 
 
 # ---------------------------------------------------------------- devices
+# A history uses ONE path: generation 1 is saved and loaded, the file is removed, generation 2 (same shape, same
+# array shapes, other content) is saved under the SAME path and loaded, all within this process.
 
 
-def build_device(tdgl, shape, variant=0):
+def build_device(tdgl, shape, variant=0, gen=1):
     from tdgl.geometry import box, circle
 
-    layer = tdgl.Layer(coherence_length=0.5, london_lambda=2.0, thickness=0.1, gamma=8.0, u=5.0, z0=0.25 if variant % 2 else 0,
-                       conductivity=1.5 if shape["cond"] else None)
+    g = gen - 1
+    layer = tdgl.Layer(coherence_length=0.5, london_lambda=2.0 + 0.5 * g, thickness=0.1, gamma=8.0 - 3 * g, u=5.0,
+                       z0=0.25 if variant % 2 else 0, conductivity=(1.5 + g) if shape["cond"] else None)
     W, H = 6.0, 4.0
     pts = box(W, H, points=40)
     if variant % 3 == 1:
@@ -324,11 +319,11 @@ def build_device(tdgl, shape, variant=0):
     terms = [tdgl.Polygon("source", points=box(0.1, H, center=(-W / 2, 0))),
              tdgl.Polygon("drain", points=box(0.1, H, center=(W / 2, 0))),
              tdgl.Polygon("gate", points=box(2.0, 0.1, center=(0, H / 2)))][: shape["terms"]]
-    pp = {0: None, 2: [(-2.0, 0.0), (2.0, 0.0)], 3: [(-2.0, 0.0), (0.0, 1.0), (2.0, 0.0)]}[shape["probes"]]
+    pp = {0: None, 2: [(-2.0, 0.1 * g), (2.0, 0.0)], 3: [(-2.0, 0.0), (0.0, 1.0 - 0.1 * g), (2.0, 0.0)]}[shape["probes"]]
     dev = tdgl.Device("dev%d" % variant, layer=layer, film=film, holes=holes, terminals=terms, probe_points=pp,
                       length_units="um" if variant % 2 == 0 else "nm")
     if shape["mesh"]:
-        dev.make_mesh(max_edge_length=1.4, smooth=variant % 2)
+        dev.make_mesh(max_edge_length=1.4, smooth=variant % 2 + 30 * g)      # smoothing keeps the triangulation
     return dev
 
 
@@ -337,38 +332,45 @@ def device_case(tdgl, args, tmp):
     import h5py
 
     shape, variant = args["shape"], args.get("variant", 0)
+    via = args.get("via", "path")
     I = Interner()
-    dev = build_device(tdgl, shape, variant)
-    ev = [{"ev": "made", "saved": device_rec(I, dev)}]
-    tr = {"kind": "device", "shape": shape, "ev": ev, "label": f"device {json.dumps(shape, sort_keys=True)} variant={variant}"}
+    ev = []
+    tr = {"kind": "device", "shape": shape, "ev": ev,
+          "label": f"device {json.dumps(shape, sort_keys=True)} variant={variant}{' history' if args.get('history') else ''}"}
     d = tempfile.mkdtemp(prefix="pdev", dir=tmp)
     path = os.path.join(d, "dev.h5")
-    if args.get("via", "path") == "path":
-        ok, _, err = guarded(lambda: dev.to_hdf5(path, save_mesh=shape["savemesh"]))
-    else:
-        def save():
-            with h5py.File(path, "x") as f:
-                dev.to_hdf5(f.create_group("g"), save_mesh=shape["savemesh"])
-        ok, _, err = guarded(save)
-    if not ok:
-        ev.append({"ev": "save", "ok": False, "err": err, "rec": {}, "present": []})
-        return tr
-    with h5py.File(path, "r") as f:
-        g = f if args.get("via", "path") == "path" else f["g"]
-        rec, present = device_rec_raw(I, g)
-    ev.append({"ev": "save", "ok": True, "rec": rec, "present": present})
-    if args.get("via", "path") == "path":
-        ok, dev2, err = guarded(lambda: tdgl.Device.from_hdf5(path))
-    else:
-        def load():
-            with h5py.File(path, "r") as f:
-                return tdgl.Device.from_hdf5(f["g"])
-        ok, dev2, err = guarded(load)
-    if not ok:
-        ev.append({"ev": "load", "ok": False, "err": err, "rec": {}, "eq": "exc"})
-        return tr
-    ok2, r, _ = guarded(lambda: dev2 == dev)
-    ev.append({"ev": "load", "ok": True, "rec": device_rec(I, dev2), "eq": b2s(r) if ok2 else "exc"})
+    for gen in ((1, 2) if args.get("history") else (1,)):
+        # generation 2: same outline, other layer / probe positions / smoothing (same array shapes, other content)
+        dev = build_device(tdgl, shape, variant, gen)
+        ev.append({"ev": "made", "saved": device_rec(I, dev)})
+        if via == "path":
+            ok, _, err = guarded(lambda: dev.to_hdf5(path, save_mesh=shape["savemesh"]))
+        else:
+            def save():
+                with h5py.File(path, "x") as f:
+                    dev.to_hdf5(f.create_group("g"), save_mesh=shape["savemesh"])
+            ok, _, err = guarded(save)
+        if not ok:
+            ev.append({"ev": "save", "ok": False, "err": err, "rec": {}, "present": []})
+            return tr
+        with h5py.File(path, "r") as f:
+            rec, present = device_rec_raw(I, f if via == "path" else f["g"])
+        ev.append({"ev": "save", "ok": True, "rec": rec, "present": present})
+        if via == "path":
+            ok, dev2, err = guarded(lambda: tdgl.Device.from_hdf5(path))
+        else:
+            def load():
+                with h5py.File(path, "r") as f:
+                    return tdgl.Device.from_hdf5(f["g"])
+            ok, dev2, err = guarded(load)
+        if not ok:
+            ev.append({"ev": "load", "ok": False, "err": err, "rec": {}, "eq": "exc"})
+            return tr
+        ok2, r, _ = guarded(lambda: dev2 == dev)
+        ev.append({"ev": "load", "ok": True, "rec": device_rec(I, dev2), "eq": b2s(r) if ok2 else "exc"})
+        if gen == 1 and args.get("history"):
+            os.remove(path)
+            ev.append({"ev": "remove", "ok": not os.path.exists(path)})
     return tr
 
 
@@ -387,43 +389,51 @@ def mesh_case(tdgl, args, tmp):
 
     shape = args["shape"]
     Mesh = tdgl.finite_volume.Mesh
-    dev = devices.make(tdgl, args.get("dev", "barhole"), mel=args.get("mel", 1.3), smooth=args.get("smooth", 0), probes=2)
-    mesh = dev.mesh
     I = Interner()
-    ev = [{"ev": "made", "saved": mesh_rec(I, mesh)}]
-    tr = {"kind": "mesh", "shape": shape, "ev": ev, "label": f"mesh compress={shape['compress']} {args.get('dev', 'barhole')} mel={args.get('mel', 1.3)} smooth={args.get('smooth', 0)}"}
+    ev = []
+    tr = {"kind": "mesh", "shape": shape, "ev": ev,
+          "label": f"mesh compress={shape['compress']} {args.get('dev', 'barhole')} mel={args.get('mel', 1.3)} smooth={args.get('smooth', 0)}"
+                   f"{' history' if args.get('history') else ''}"}
     d = tempfile.mkdtemp(prefix="pmesh", dir=tmp)
     path = os.path.join(d, "mesh.h5")
+    for gen in ((1, 2) if args.get("history") else (1,)):
+        # generation 2: the same triangulation smoothed further (same array shapes, other coordinates)
+        dev = devices.make(tdgl, args.get("dev", "barhole"), mel=args.get("mel", 1.3), smooth=args.get("smooth", 0) + 35 * (gen - 1), probes=2)
+        mesh = dev.mesh
+        ev.append({"ev": "made", "saved": mesh_rec(I, mesh)})
 
-    def save():
-        with h5py.File(path, "x") as f:
-            mesh.to_hdf5(f.create_group("mesh"), compress=shape["compress"])
-    ok, _, err = guarded(save)
-    if not ok:
-        ev.append({"ev": "save", "ok": False, "err": err, "rec": {}, "present": []})
-        return tr
-    with h5py.File(path, "r") as f:
-        ev.append({"ev": "save", "ok": True, "rec": mesh_rec_raw(I, f["mesh"]), "present": sorted(f["mesh"])})
-    # was the mesh recomputed from its triangulation?  (wrapper around the public static method; logs, changes nothing)
-    calls = []
-    orig = Mesh.__dict__["from_triangulation"]
+        def save():
+            with h5py.File(path, "x") as f:
+                mesh.to_hdf5(f.create_group("mesh"), compress=shape["compress"])
+        ok, _, err = guarded(save)
+        if not ok:
+            ev.append({"ev": "save", "ok": False, "err": err, "rec": {}, "present": []})
+            return tr
+        with h5py.File(path, "r") as f:
+            ev.append({"ev": "save", "ok": True, "rec": mesh_rec_raw(I, f["mesh"]), "present": sorted(f["mesh"])})
+        # was the mesh recomputed from its triangulation?  (wrapper around the public static method; logs, changes nothing)
+        calls = []
+        orig = Mesh.__dict__["from_triangulation"]
 
-    def spy(*a, **kw):
-        calls.append(1)
-        return orig.__func__(*a, **kw)
+        def spy(*a, **kw):
+            calls.append(1)
+            return orig.__func__(*a, **kw)
 
-    Mesh.from_triangulation = staticmethod(spy)
-    try:
-        def load():
-            with h5py.File(path, "r") as f:
-                return Mesh.from_hdf5(f["mesh"])
-        ok, m2, err = guarded(load)
-    finally:
-        Mesh.from_triangulation = orig
-    if not ok:
-        ev.append({"ev": "load", "ok": False, "err": err, "rec": {}, "eq": "exc", "recomputed": False})
-        return tr
-    ev.append({"ev": "load", "ok": True, "rec": mesh_rec(I, m2), "eq": "T", "recomputed": bool(calls)})
+        Mesh.from_triangulation = staticmethod(spy)
+        try:
+            def load():
+                with h5py.File(path, "r") as f:
+                    return Mesh.from_hdf5(f["mesh"])
+            ok, m2, err = guarded(load)
+        finally:
+            Mesh.from_triangulation = orig
+        if not ok:
+            ev.append({"ev": "load", "ok": False, "err": err, "rec": {}, "eq": "exc", "recomputed": False})
+            return tr
+        ev.append({"ev": "load", "ok": True, "rec": mesh_rec(I, m2), "eq": "T", "recomputed": bool(calls)})
+        if gen == 1 and args.get("history"):
+            os.remove(path)
+            ev.append({"ev": "remove", "ok": not os.path.exists(path)})
     return tr
 
 
@@ -456,13 +466,31 @@ def dyn_rec(I, dyn):
     return {f: I.arr(getattr(dyn, f)) for f in ("dt", "time", "mu", "theta", "screening_iterations")}
 
 
+def mesh_id(I, rec):
+    return I("mesh", tuple(sorted(rec.items())))
+
+
 def derived(I, sol, queries):
-    """Solution.times and closest_solve_step at fixed query times."""
+    """Solution.times, closest_solve_step at fixed query times, and the current densities of the step held
+    (computed by the Solution from the step's data on ITS mesh)."""
     times = sol.times
-    return I.arr(times), I("closest", tuple(int(sol.closest_solve_step(t)) for t in queries))
+    cur = I("currents", *(I.arr(np.asarray(getattr(q, "magnitude", q))) for q in
+                          (sol.supercurrent_density, sol.normal_current_density, sol.current_density)))
+    return I.arr(times), I("closest", tuple(int(sol.closest_solve_step(t)) for t in queries)), cur
 
 
 RUNS = {1: (0, 100), 2: (3, 100), 3: (4, 2), 4: (5, 2)}      # nframes -> (steps, save_every)
+
+
+def tiny_run(tdgl, out, nsteps, k, kind, probes, screening, smooth=0):
+    from . import devices
+
+    dev = devices.make(tdgl, kind, mel=1.3, probes=probes, smooth=smooth)
+    dt = 2.0 ** -6
+    opts = tdgl.SolverOptions(solve_time=max(nsteps * dt - dt / 2, 0.0), dt_init=dt, dt_max=dt, adaptive=False, save_every=k,
+                              output_file=out, progress_interval=10 ** 9, include_screening=screening, screening_tolerance=1e-2)
+    cur = {"source": 1.0, "drain": -1.0} if kind in ("bar", "barhole") else None
+    return tdgl.solve(dev, opts, applied_vector_potential=0.2, terminal_currents=cur)
 
 
 @raising_is_an_observation("solution")
@@ -473,63 +501,95 @@ def solution_case(tdgl, args, tmp):
     nsteps, k = RUNS[shape["nframes"]]
     probes = 2 if shape["probes"] else 0
     dev = args.get("dev", "barhole")
+    mode = shape["mode"]
+    history = bool(args.get("history"))
     I = Interner()
     d = tempfile.mkdtemp(prefix="psol", dir=tmp)
-    work = os.path.join(d, "work.h5")
-    if shape["mode"] == "nofile":
-        # the Solution solve() returns for output_file=None: it holds the last step and the dynamics, its file is gone
-        orig = base_solution(tdgl, tmp, nsteps=nsteps, k=k, kind=dev, probes=probes, screening=shape["screening"], nofile=True)
-        if orig.saved_on_disk:
-            raise core.MachineryFailure("solution of a run with output_file=None is backed by a file")
-        n = int(orig.data_range[1] - orig.data_range[0] + 1)
-        steps = list(range(int(orig.data_range[0]), int(orig.data_range[1]) + 1))
-        frames = [0] * (n - 1) + [frame_id_obj(I, orig.tdgl_data)]        # only the step it holds can be known
-    else:
-        base = base_solution(tdgl, tmp, nsteps=nsteps, k=k, kind=dev, probes=probes, screening=shape["screening"])
-        shutil.copy(base.path, work)
-        with h5py.File(work, "r") as f:
-            steps = sorted(int(s) for s in f["data"])
-            frames = [frame_id_raw(I, f, s) for s in steps]
-        orig = tdgl.Solution.from_hdf5(work, solve_step=shape["cur"] - 1)
-    total = float(orig.dynamics.time[-1]) if len(orig.dynamics.time) else 1.0
-    queries = [0.0, 0.26 * total, 0.5 * total, 0.74 * total, total, 2 * total]
-    otimes, oclosest = derived(I, orig, queries)
-    ev = [{"ev": "made", "saved": {"frames": frames, "dyn": dyn_rec(I, orig.dynamics), "times": otimes, "closest": oclosest}}]
-    tr = {"kind": "solution", "shape": shape, "ev": ev, "label": f"solution {json.dumps(shape, sort_keys=True)} dev={dev}"}
-    if shape["mode"] == "copy":
-        path = os.path.join(d, "copy.h5")
-        ok, _, err = guarded(lambda: orig.to_hdf5(path))
-    elif shape["mode"] == "inplace":
-        path = work
-        ok, _, err = guarded(lambda: orig.to_hdf5())
-    elif shape["mode"] == "deleted":
-        path = os.path.join(d, "after_delete.h5")
-        orig.delete_hdf5()
-        ok, _, err = guarded(lambda: orig.to_hdf5(path))
-    else:
-        path = os.path.join(d, "from_memory.h5")
-        ok, _, err = guarded(lambda: orig.to_hdf5(path))
-    if not ok:
-        ev.append({"ev": "save", "ok": False, "err": err, "rec": {"frames": []}})
-        return tr
-    with h5py.File(path, "r") as f:
-        fsteps = sorted(int(s) for s in f["data"])
-        ev.append({"ev": "save", "ok": True, "rec": {"frames": [frame_id_raw(I, f, s) for s in fsteps]}})
-    lframes, ldyn, ltimes, lclosest, eqs, err = [], dyn_rec(I, None), 0, 0, [], ""
-    nofile = shape["mode"] in ("deleted", "nofile")
-    try:
-        for n, s in enumerate(fsteps):
-            lo = tdgl.Solution.from_hdf5(path, solve_step=s)
-            lframes.append(frame_id_obj(I, lo.tdgl_data))
-            ldyn = dyn_rec(I, lo.dynamics)
-            ltimes, lclosest = derived(I, lo, queries)
-            if nofile or s == shape["cur"] - 1 + steps[0]:
-                eqs.append(lo.equals(orig))
-        ok = True
-    except Exception as e:
-        ok, err = False, f"{type(e).__name__}: {str(e)[:160]}"
-    ev.append({"ev": "load", "ok": ok, "err": err, "rec": {"frames": lframes, "dyn": ldyn, "times": ltimes, "closest": lclosest},
-               "eq": "T" if eqs and all(r is True or (isinstance(r, np.bool_) and bool(r)) for r in eqs) else ("F" if eqs else "none")})
+    ev = []
+    tr = {"kind": "solution", "shape": shape, "ev": ev,
+          "label": f"solution {json.dumps(shape, sort_keys=True)} dev={dev}{' history' if history else ''}"}
+    target = os.path.join(d, "solution.h5")          # the ONE path the history uses
+    for gen in ((1, 2) if history else (1,)):
+        smooth = 35 * (gen - 1)       # generation 2: same triangulation smoothed further, hence another run
+        work = os.path.join(d, f"work{gen}.h5")
+        if mode == "solved":
+            # the file tdgl.solve writes under output_file is the saved object
+            orig = tiny_run(tdgl, target, nsteps, k, dev, probes, shape["screening"], smooth)
+            if os.path.abspath(orig.path) != os.path.abspath(target):
+                raise core.MachineryFailure(f"solve wrote to {orig.path}, not to the path of the history")
+            with h5py.File(target, "r") as f:
+                steps = sorted(int(s) for s in f["data"])
+                frames = [frame_id_raw(I, f, s) for s in steps]
+        elif mode == "nofile":
+            # the Solution solve() returns for output_file=None: it holds the last step and the dynamics, its file is gone
+            orig = base_solution(tdgl, tmp, nsteps=nsteps, k=k, kind=dev, probes=probes, screening=shape["screening"], nofile=True,
+                                 smooth=smooth)
+            if orig.saved_on_disk:
+                raise core.MachineryFailure("solution of a run with output_file=None is backed by a file")
+            n = int(orig.data_range[1] - orig.data_range[0] + 1)
+            steps = list(range(int(orig.data_range[0]), int(orig.data_range[1]) + 1))
+            frames = [0] * (n - 1) + [frame_id_obj(I, orig.tdgl_data)]        # only the step it holds can be known
+        else:
+            base = base_solution(tdgl, tmp, nsteps=nsteps, k=k, kind=dev, probes=probes, screening=shape["screening"], smooth=smooth)
+            shutil.copy(base.path, work)
+            with h5py.File(work, "r") as f:
+                steps = sorted(int(s) for s in f["data"])
+                frames = [frame_id_raw(I, f, s) for s in steps]
+            # the object that is saved: the solver's own Solution (its mesh is the one it was computed on), at step cur
+            orig = tdgl.Solution(device=base.device, options=base.options, path=work,
+                                 applied_vector_potential=base.applied_vector_potential, terminal_currents=base.terminal_currents,
+                                 disorder_epsilon=base.disorder_epsilon, total_seconds=base.total_seconds,
+                                 _solve_step=shape["cur"] - 1)
+        total = float(orig.dynamics.time[-1]) if len(orig.dynamics.time) else 1.0
+        queries = [0.0, 0.26 * total, 0.5 * total, 0.74 * total, total, 2 * total]
+        otimes, oclosest, ocur = derived(I, orig, queries)
+        ev.append({"ev": "made", "saved": {"frames": frames, "dyn": dyn_rec(I, orig.dynamics), "times": otimes, "closest": oclosest,
+                                           "mesh": mesh_id(I, mesh_rec(I, orig.device.mesh)), "currents": ocur}})
+        if mode == "solved":
+            path, ok, err = target, True, ""
+        elif mode == "copy":
+            path = target
+            ok, _, err = guarded(lambda: orig.to_hdf5(path))
+        elif mode == "inplace":
+            if history:
+                raise core.MachineryFailure("in-place saving has no history on another path")
+            path = work
+            ok, _, err = guarded(lambda: orig.to_hdf5())
+        elif mode == "deleted":
+            path = target
+            orig.delete_hdf5()
+            ok, _, err = guarded(lambda: orig.to_hdf5(path))
+        else:
+            path = target
+            ok, _, err = guarded(lambda: orig.to_hdf5(path))
+        if not ok:
+            ev.append({"ev": "save", "ok": False, "err": err, "rec": {"frames": [], "mesh": 0}})
+            return tr
+        with h5py.File(path, "r") as f:
+            fsteps = sorted(int(s) for s in f["data"])
+            ev.append({"ev": "save", "ok": True, "rec": {"frames": [frame_id_raw(I, f, s) for s in fsteps],
+                                                         "mesh": mesh_id(I, mesh_rec_raw(I, f["solution/device/mesh"] if "solution/device/mesh" in f else None))}})
+        lframes, ldyn, ltimes, lclosest, lcur, lmesh, eqs, err = [], dyn_rec(I, None), 0, 0, 0, 0, [], ""
+        nofile = mode in ("deleted", "nofile")
+        held = fsteps[0] if nofile else shape["cur"] - 1 + steps[0]
+        try:
+            for s in fsteps:
+                lo = tdgl.Solution.from_hdf5(path, solve_step=s)
+                lframes.append(frame_id_obj(I, lo.tdgl_data))
+                if s == held:
+                    ldyn = dyn_rec(I, lo.dynamics)
+                    ltimes, lclosest, lcur = derived(I, lo, queries)
+                    lmesh = mesh_id(I, mesh_rec(I, lo.device.mesh))
+                    eqs.append(lo.equals(orig))
+            ok = True
+        except Exception as e:
+            ok, err = False, f"{type(e).__name__}: {str(e)[:160]}"
+        ev.append({"ev": "load", "ok": ok, "err": err,
+                   "rec": {"frames": lframes, "dyn": ldyn, "times": ltimes, "closest": lclosest, "mesh": lmesh, "currents": lcur},
+                   "eq": "T" if eqs and all(r is True or (isinstance(r, np.bool_) and bool(r)) for r in eqs) else ("F" if eqs else "none")})
+        if gen == 1 and history:
+            lo.delete_hdf5()
+            ev.append({"ev": "remove", "ok": not os.path.exists(path)})
     return tr
 
 
@@ -594,6 +654,170 @@ def params_many(tdgl, args, tmp):
     return out
 
 
+# ---------------------------------------------------------------- parameters across processes
+# A saved parameter is normally read by ANOTHER session.  Child 1 is a driver script whose __main__ defines the plain
+# named functions p2 / p3 / pt; it builds the expressions on them and saves them (pickle, cloudpickle, inside a Solution
+# file).  Child 2 is a fresh process that does not define those names; child 3 defines the same names as DIFFERENT
+# functions.  Both load and evaluate at the fixed point set; the trace build / pickle / unpickle / call(copy) is
+# validated by TLC against ParamAlgTrace (loaded values == values of the saved expression).
+
+DEFS = """def p2(x, y, a=0):
+    return x + 2 * y - a
+
+
+def p3(x, y, z, b=0):
+    return x - y + z + b
+
+
+def pt(x, y, z, *, t, c=0):
+    return x + 2 * z - c + t
+"""
+
+REBOUND = """def p2(x, y, a=0):
+    return 100.0 + 0 * x
+
+
+def p3(x, y, z, b=0):
+    return 200.0 + 0 * x
+
+
+def pt(x, y, z, *, t, c=0):
+    return 300.0 + 0 * x + 0 * t
+"""
+
+CHILD_SAVE = """
+import json, os, pickle, sys
+sys.path.insert(0, "/verif")
+from harness import core, paramalg as pa, persist as ps
+import cloudpickle
+tdgl = core.import_tdgl()
+job = json.load(open(sys.argv[1]))
+out = []
+for n, it in enumerate(job["items"]):
+    rec = {"build": None, "saves": {}}
+    try:
+        obj = pa.build(tdgl, it["tree"], "main")
+        rec["build"] = {"ev": "build", "ok": True, "td": pa.b2s(obj.time_dependent), "cls": ""}
+    except Exception as e:
+        rec["build"] = {"ev": "build", "ok": False, "td": "unset", "cls": type(e).__name__}
+        out.append(rec)
+        continue
+    for method in it["methods"]:
+        path = os.path.join(job["dir"], f"{n}_{method}.bin")
+        try:
+            if method == "solution":
+                sol = tdgl.Solution.from_hdf5(ps.base_solution(tdgl, job["dir"]).path)
+                setattr(sol, it.get("slot", "applied_vector_potential"), obj)
+                path = os.path.join(job["dir"], f"{n}_solution.h5")
+                sol.to_hdf5(path)
+            else:
+                blob = (pickle if method == "pickle" else cloudpickle).dumps(obj)
+                open(path, "wb").write(blob)
+            rec["saves"][method] = {"ok": True, "cls": "", "path": path}
+        except Exception as e:
+            rec["saves"][method] = {"ok": False, "cls": type(e).__name__, "path": path}
+    out.append(rec)
+json.dump(out, open(sys.argv[2], "w"))
+"""
+
+CHILD_LOAD = """
+import json, os, pickle, sys
+sys.path.insert(0, "/verif")
+from harness import core, paramalg as pa
+import numpy as np
+tdgl = core.import_tdgl()
+job = json.load(open(sys.argv[1]))
+sys.path.insert(0, job["dir"])
+saved = json.load(open(sys.argv[2]))
+out = []
+for n, (it, sv) in enumerate(zip(job["items"], saved)):
+    res = {}
+    for method in it["methods"]:
+        s = sv["saves"].get(method)
+        if not s or not s["ok"]:
+            continue
+        ev = []
+        try:
+            if method == "solution":
+                cp = getattr(tdgl.Solution.from_hdf5(s["path"]), it.get("slot", "applied_vector_potential"))
+            else:
+                cp = pickle.loads(open(s["path"], "rb").read())
+        except Exception as e:
+            ev.append({"ev": "unpickle", "ok": False, "cls": type(e).__name__, "msg": str(e)[:120], "td": "unset", "eq": "unset"})
+            res[method] = ev
+            continue
+        try:
+            ctd = pa.b2s(cp.time_dependent)
+        except AttributeError:
+            ctd = "unset"
+        try:
+            # the original, rebuilt on the same definitions kept in a module of another name
+            r = cp == pa.build(tdgl, it["tree"], "module:pa_defs_copy")
+            ceq = pa.b2s(r) if isinstance(r, (bool, np.bool_)) else "notbool"
+        except Exception as e:
+            ceq = "exc:" + type(e).__name__
+        ev.append({"ev": "unpickle", "ok": True, "cls": "", "td": ctd, "eq": ceq})
+        for form, t in pa.COPY_CALLS:
+            ev.append(pa.call_event(tdgl, cp, "copy", form, t))
+        res[method] = ev
+    out.append(res)
+json.dump(out, open(sys.argv[3], "w"))
+"""
+
+
+def params_crossproc(tdgl, args, tmp):
+    """items: [{tree, methods}] -> ParamAlgTrace traces whose pickle happened in one process and whose unpickle and
+    evaluation happened in a fresh process (names undefined) and in a process where the names are rebound."""
+    import subprocess
+    import sys
+
+    from . import paramalg as pa
+
+    d = tempfile.mkdtemp(prefix="pxproc", dir=tmp)
+    items = []
+    for it in args["items"]:
+        # (a plain Parameter given to the standard pickler is stored by reference by the standard pickler itself)
+        methods = [m for m in it.get("methods", ["pickle", "cloudpickle"]) if not (m == "pickle" and it["tree"]["k"] != "N")]
+        items.append(dict(it, methods=methods))
+    job = os.path.join(d, "job.json")
+    json.dump({"dir": d, "items": items}, open(job, "w"))
+    open(os.path.join(d, "pa_defs_copy.py"), "w").write(DEFS)
+    open(os.path.join(d, "driver_save.py"), "w").write(DEFS + CHILD_SAVE)           # the names live in __main__
+    open(os.path.join(d, "driver_fresh.py"), "w").write(CHILD_LOAD)                 # the names do not exist
+    open(os.path.join(d, "driver_rebound.py"), "w").write(REBOUND + CHILD_LOAD)     # the names are other functions
+    env = dict(os.environ, NUMBA_NUM_THREADS="1", OMP_NUM_THREADS="1")
+    saved, fresh, rebound = (os.path.join(d, f) for f in ("saved.json", "fresh.json", "rebound.json"))
+    p1 = subprocess.run([sys.executable, os.path.join(d, "driver_save.py"), job, saved], env=env, capture_output=True,
+                        text=True, timeout=600)
+    if p1.returncode != 0:
+        raise core.MachineryFailure(f"driver_save.py failed: {p1.stderr[-1500:]}")
+    p2 = subprocess.Popen([sys.executable, os.path.join(d, "driver_fresh.py"), job, saved, fresh], env=env,
+                          stdout=subprocess.DEVNULL, stderr=subprocess.PIPE, text=True)
+    p3 = subprocess.Popen([sys.executable, os.path.join(d, "driver_rebound.py"), job, saved, rebound], env=env,
+                          stdout=subprocess.DEVNULL, stderr=subprocess.PIPE, text=True)
+    for p, name in ((p2, "driver_fresh.py"), (p3, "driver_rebound.py")):
+        _, err = p.communicate(timeout=600)
+        if p.returncode != 0:
+            raise core.MachineryFailure(f"{name} failed: {err[-1500:]}")
+    sv, fr, rb = (json.load(open(f)) for f in (saved, fresh, rebound))
+    traces = []
+    for it, s, f, r in zip(items, sv, fr, rb):
+        if not s["build"]["ok"]:
+            continue
+        for where, res in (("fresh process", f), ("process with the names rebound", r)):
+            ev = [s["build"]]
+            for m in it["methods"]:
+                ev.append({"ev": "pickle", "ok": s["saves"][m]["ok"], "cls": s["saves"][m]["cls"], "method": m})
+                if not s["saves"][m]["ok"]:
+                    break
+                ev += res.get(m, [])
+                if not ev[-1].get("ok", True):
+                    break
+            traces.append({"tree": it["tree"], "ev": ev,
+                           "label": f"{pa.show(it['tree'])} on __main__ functions, saved by {'/'.join(it['methods'])}, loaded in a {where}"})
+    return traces
+
+
 # ---------------------------------------------------------------- TLC side
 
 
@@ -642,7 +866,9 @@ def validate(ctx, pid, traces, what, max_diag=6):
     seen = {}
     for n in rejected:
         tr = traces[n]
-        pre = next((f"{e['ev']}:{e.get('err', '').split(':')[0]}" for e in tr["ev"] if not e.get("ok", True)), "content")
+        pre = tr["kind"] + ":" + next((f"{e['ev']}:{e.get('err', '').split(':')[0]}" for e in tr["ev"] if not e.get("ok", True)), "content")
+        if any(e["ev"] == "remove" for e in tr["ev"]):
+            pre += ":history"
         if tr["kind"] == "options":
             pre += ":" + ",".join(f"{f}={v}" for f, v in tr["shape"].items() if v in ("N",))
         seen[pre] = seen.get(pre, 0) + 1
